@@ -33,6 +33,25 @@ def render(cs):
     return {"expr": e, "def": f"v := {e}", "mutdef": f"~v := {e}", "kinddef": f"v<f64> := {e}", "assign": f"v = {e}",
             "opassign": f"v += {e}", "idxassign": f"v[1] = {e}", "commented": f"v := {e} -- a note"}[s]
 
+KLEAF = {"f64": "f64", "u8": "u8", "i64": "i64", "string": "string", "bool": "bool", "any": "*", "empty": "_", "atom": ":ok", "custom": "color", "r64": "r64"}
+def rk(k):
+    """kind tree -> the text between the angle brackets"""
+    f = k["k"]; c = [rk(x) for x in k["kids"]]
+    if f in KLEAF: return KLEAF[f]
+    return {"mat": lambda: f"[{c[0]}]", "mat13": lambda: f"[{c[0]}]:1,3", "matd3": lambda: f"[{c[0]}]:_,3", "mat3d": lambda: f"[{c[0]}]:3,_",
+            "matdd": lambda: f"[{c[0]}]:_,_", "mat3": lambda: f"[{c[0]}]:3", "matd": lambda: f"[{c[0]}]:_",
+            "set": lambda: "{" + c[0] + "}", "set3": lambda: "{" + c[0] + "}:3", "setd": lambda: "{" + c[0] + "}:_",
+            "opt": lambda: f"{c[0]}?", "kindof": lambda: f"<{c[0]}>",
+            "tuple": lambda: f"({c[0]},{c[1]})", "map": lambda: "{" + f"{c[0]}:{c[1]}" + "}",
+            "table": lambda: f"|x<{c[0]}> y<{c[1]}>|", "table3": lambda: f"|x<{c[0]}> y<{c[1]}>|:3",
+            "record": lambda: "{" + f"x<{c[0]}> y<{c[1]}>" + "}"}[f]()
+
+def render_kind(cs):
+    k = rk(cs["kind"]); x = cs["ctx"]
+    return {"vardef": f"v<{k}> := x", "mutvardef": f"~v<{k}> := x", "kinddefine": f"<kname> := <{k}>", "exprannot": f"w := x<{k}>",
+            "litannot": f"w := 5<{k}>", "fnarg": f"foo(a<{k}>) => <u8>\n  | * => 1u8.", "fnout": f"foo(a<u8>) => <{k}>\n  | * => a.",
+            "enumpayload": f"<shape> := :circle<{k}> | :dot", "tablecol": f"t := | x<{k}> y<f64> | 1 2 |", "assignannot": f"v<{k}> = x"}[x]
+
 def first_diff(a, b, path=""):
     """path (node names, no list indices) of the first difference between two erased trees"""
     if type(a) != type(b): return path or "/"
@@ -75,6 +94,12 @@ def run(rep, tier, seed):
     texts = []; origin = []
     for cs in t.cases:
         texts.append(render(cs)); origin.append(f"ast:{cs['stmt']}/{cs['e']['f']}")
+    tk = tlc.run("MC_C08k", "MC_C08k_quick.cfg" if tier == "quick" else "MC_C08k_thorough.cfg", workers=8, timeout=3000)
+    if tk.violations or not tk.ok:
+        rep.fail("C08/model", "TLC reported a violation on MechSyntax (kinds): " + "; ".join(tk.errors[:3]), {"log": tk.log})
+    tk.cases.sort(key=lambda c: json.dumps(c, sort_keys=True))
+    for cs in tk.cases:
+        texts.append(render_kind(cs)); origin.append(f"ast:kind-{cs['ctx']}/{cs['kind']['k']}")
     nmodel = len(texts)
     for p in repo_programs():
         texts.append(p); origin.append("test-program")
